@@ -429,6 +429,7 @@ def explore_item(item, seed, sub, prop, progs, judge, world_factory=None, body_f
     judge(view, counters) -> [(signature, message)]. Returns the explorer statistics + outcome set."""
     import random
     kind, names, bound, points = item
+    tx.pin_worker()
     world = (world_factory or make_world)()
     body_factory = body_factory or body_of
     view_factory = view_factory or View
